@@ -625,10 +625,15 @@ func c11GRPC(m *larking.Mux, full string) string {
 	return c11Tag(body[5:])
 }
 
-func c11HTTP(m *larking.Mux, t c11Target) string {
+func c11HTTP(m *larking.Mux, t c11Target) string { return c11HTTPWith(m, t, nil) }
+
+func c11HTTPWith(m *larking.Mux, t c11Target, upgrade []string) string {
 	var r = httptest.NewRequest(t.method, t.url, strings.NewReader(t.body))
 	if t.body != "" {
 		r.Header.Set("Content-Type", "application/json")
+	}
+	if upgrade != nil {
+		r.Header["Upgrade"] = upgrade
 	}
 	w, p := serveRec(m, r)
 	if p != "" {
